@@ -11,9 +11,12 @@
       m = Check t   :  x: t = ov(args)
     "variant s accepts" = the stand-alone call [standalone … s es] on the ORIGINAL argument
     nodes does not raise; by [direct_call_is_standalone] that is literally what checking
-    the direct call `s(args)` does. *)
+    the direct call `s(args)` does.  For source (annotation-free) arguments it is moreover
+    characterised independently of the checker's code by the reference [sig_accepts] of
+    ProofsSpec.v — a bidirectional type checker without rewriting, mutation or fuel
+    ([variant_accepts_iff_signature_accepts], [first_match_reference]). *)
 From Coq Require Import ZArith List Bool.
-From V.C15 Require Import Overload GenLoop Proofs.
+From V.C15 Require Import Overload GenLoop Proofs ProofsFuel ProofsSpec.
 Import ListNotations.
 
 (* the tie to the source: the loop as found in overloaded.py copies the argument nodes *)
@@ -83,6 +86,51 @@ Example first_match_instance :
   fst (tc copies_args 10 w1_env Synth (ECall 2%nat w1_args)) = fst (tc copies_args 10 w1_env Synth (ECall 1%nat w1_args)) /\
   exists r, fst (tc copies_args 10 w1_env Synth (ECall 2%nat w1_args)) = Ok r tflt.
 Proof. exact (w1_copy_selects_b copies_args loop_copies_args). Qed.
+
+(* fuel is a model artefact: with copies, fuel >= depth of the expression never runs out, so all
+   statements above speak about Ok / Err as soon as n >= depth *)
+Theorem enough_fuel_no_oof : forall n E m e, depth e <= n -> fst (tc copies_args n E m e) <> OOF.
+Proof. exact enough_fuel. Qed.
+Print Assumptions enough_fuel_no_oof.
+
+(* the checker fragment accepts exactly what the declarative reference accepts, in both
+   positions, for every source expression (literals, tuples, names, nested calls/overloads) *)
+Theorem checker_agrees_with_reference : forall n E e, depth (embed e) <= n ->
+  (forall t, is_ok (fst (tc copies_args n E (Check t) (embed e))) = checks E e t) /\
+  ok_ty (fst (tc copies_args n E Synth (embed e))) = synthesizes E e.
+Proof. exact ref_correct. Qed.
+Print Assumptions checker_agrees_with_reference.
+
+(* "variant s accepts the arguments (and the expected result type)" in the sense of the code =
+   in the sense of the reference *)
+Theorem variant_accepts_iff_signature_accepts : forall n E m s es, depth_list (map embed es) <= n ->
+  is_ok (fst (standalone copies_args n E m s (map embed es))) = accepts_sig E m s es.
+Proof. exact standalone_is_ok. Qed.
+Print Assumptions variant_accepts_iff_signature_accepts.
+
+(* the property, end to end and against the reference: if variant i is the first one whose
+   signature accepts the source arguments (and returns the expected type, when one is known),
+   the overloaded call is accepted and its outcome is that of the direct call to variant i *)
+Theorem first_match_reference : forall n E m f g vs es i s,
+  nth_error (funs E) f = Some (FOver vs) -> nth_error (funs E) g = Some (FDecl s) ->
+  (depth_list (map embed es) <= n)%nat ->
+  nth_error vs i = Some s ->
+  accepts_sig E m s es = true ->
+  (forall j s', (j < i)%nat -> nth_error vs j = Some s' -> accepts_sig E m s' es = false) ->
+  fst (tc copies_args (S n) E m (ECall f (map embed es))) = fst (tc copies_args (S n) E m (ECall g (map embed es))) /\
+  is_ok (fst (tc copies_args (S n) E m (ECall f (map embed es)))) = true.
+Proof. exact first_match_ref. Qed.
+Print Assumptions first_match_reference.
+
+(* ... and which type comes out / whether it is accepted at all, in closed form *)
+Theorem overload_resolution_reference : forall n E f vs es,
+  nth_error (funs E) f = Some (FOver vs) -> depth (embed (SCall f es)) <= n ->
+  ok_ty (fst (tc copies_args n E Synth (embed (SCall f es)))) =
+    first_some (fun s => if sig_accepts E s es then Some (s_out s) else None) vs /\
+  forall t, is_ok (fst (tc copies_args n E (Check t) (embed (SCall f es)))) =
+    existsb (fun s => sig_accepts E s es && ty_eqb t (s_out s)) vs.
+Proof. exact overload_ref. Qed.
+Print Assumptions overload_resolution_reference.
 
 (* The same loop WITHOUT copying (guppylang 0.21.6 as found) refutes the property, both ways:
    (1) ov((1, True)) is rejected although variant b accepts it stand-alone;
